@@ -43,6 +43,13 @@ class Outcome:
         return f"return {self.value!r}"
 
 
+class _Count:
+    """itertools.count(n): a stateful counter (next() advances it)."""
+
+    def __init__(self, n: int) -> None:
+        self.n = n
+
+
 class _Return(Exception):
     def __init__(self, value: Any, node: ast.AST) -> None:
         self.value = value
@@ -501,14 +508,20 @@ class Evaluator:
         if q == "enumerate" and args:
             return list(enumerate(args[0], *args[1:2]))
         if q in ("itertools.count", "count") and len(args) <= 1 and all(isinstance(a, int) and not isinstance(a, bool) for a in args):
-            return ("<count>", args[0] if args else 0)
+            return _Count(args[0] if args else 0)
+        if q == "next" and len(args) == 1 and isinstance(args[0], _Count):
+            v_ = args[0].n
+            args[0].n += 1
+            return v_
+        if q == "dict.fromkeys" and 1 <= len(args) <= 2 and isinstance(args[0], (list, tuple)):
+            return dict.fromkeys(args[0], args[1] if len(args) == 2 else None)
         if q == "zip":
-            finite = [a for a in args if not (isinstance(a, tuple) and len(a) == 2 and a[0] == "<count>")]
+            finite = [a for a in args if not isinstance(a, _Count)]
             if len(finite) != len(args):
-                if not finite or not all(isinstance(a, (list, tuple, range)) for a in finite):
+                if not finite or not all(isinstance(a, (list, tuple, range, dict)) for a in finite):
                     raise Licence(f"{self.f.loc(e)}: zip over itertools.count() without a finite abstract sequence")
                 nmin = min(len(a) for a in finite)
-                args = [list(range(a[1], a[1] + nmin)) if (isinstance(a, tuple) and len(a) == 2 and a[0] == "<count>") else a for a in args]
+                args = [list(range(a.n, a.n + nmin)) if isinstance(a, _Count) else a for a in args]
             return list(zip(*args))
         if q == "range":
             return list(range(*args))
